@@ -150,6 +150,19 @@ pub fn run_case(id: &str, r: &mut Rng, out: &mut String) {
             }
         }
     }
+    // the footer of a security's table is that security's own total gain (0 when it was rejected)
+    for s in &secs {
+        if let Some(t) = model.security_tables.get(*s) {
+            let want: Decimal = match &by_sec[*s].0 {
+                Ok(deltas) => deltas.iter().filter_map(|d| d.capital_gain).sum(),
+                Err(_) => Decimal::ZERO,
+            };
+            if let Some(got) = t.footer.get(9).and_then(|c| money(c)) {
+                out.push_str(&format!("aggexp foot{} {}\n", app::sec_num(s), want));
+                out.push_str(&format!("agg foot{} {}\n", app::sec_num(s), got));
+            }
+        }
+    }
     for (y, v) in &exp {
         out.push_str(&format!("aggexp {} {}\n", y, v));
     }
